@@ -87,6 +87,7 @@ func (s *subscriberServer) ListSnapshots(
 	err := s.client.DoTx(ctx, nil, func(tx *ent.Tx) error {
 		predicates := []predicate.Snapshot{
 			snapshot.NameHasPrefix(projectSnapshotPrefix(req.Project)),
+			nameHasExactPrefix(snapshot.FieldName, projectSnapshotPrefix(req.Project)),
 		}
 		if req.PageToken != "" {
 			pageID, err := uuid.Parse(req.PageToken)
